@@ -36,7 +36,7 @@ class StepLifetime(flodym.LifetimeModel):
 
 
 def F(x):
-    return Fraction(x[0], x[1])
+    return Fraction(x[0], x[1]) if x[1] != 0 else None      # <<0, 0>> = left unspecified by the model
 
 
 def close(a, b, scale=1.0):
@@ -148,6 +148,8 @@ def cmp_table(got, exp, what, tag, scale=1.0, limit=3):
     if got.shape != exp.shape:
         return [f"{tag} {what}: shape {got.shape} != {exp.shape}"]
     for idx in np.ndindex(*exp.shape):
+        if exp[idx] is None:
+            continue
         if not close(got[idx], exp[idx], scale):
             probs.append(f"{tag} {what}{list(idx)} = {float(got[idx])!r}, specification {float(exp[idx])!r} ({exp[idx]})")
             if len(probs) >= limit:
@@ -197,9 +199,13 @@ def run_vector(vec):
                 driver_snapshot = (st.inflow.values.copy(), st.stock.values.copy())
                 st.compute()
         except Exception as e:
+            partly = any(x[1] == 0 for row in vec["res"]["inflow"] for x in row)
+            if cls == "stock" and solver == "lapack" and partly:
+                continue   # a singular system for SOME label: refusing the whole solve is acceptable
             problems.append(tagc + f"{{C03,C09,C10,C16}} compute raised {type(e).__name__}: {str(e)[:200]}")
             continue
-        scale = max(1.0, float(max(abs(x) for x in e_stock.ravel())))
+        scale = max(1.0, float(max(abs(x) for x in e_stock.ravel() if x is not None)))
+        ok_lab = np.array([[x is not None for x in row] for row in e_in.reshape(S.n, -1)]).all(axis=0).reshape(e_in.shape[1:])
         sf_ok = True
         if cls != "flow":
             e_sf, e_pdf = S.table2(vec["sf"]), S.table2(vec["pdf"])
@@ -212,7 +218,13 @@ def run_vector(vec):
             if cls == "stock" and not np.array_equal(st.stock.values, driver_snapshot[1]):
                 problems.append(tagc + "{C15,C17,C10} compute changed the prescribed stock")
         # --- clauses evaluated on the implementation's own outputs
-        problems += [tagc + x for x in conservation(S, st.stock.values, st.inflow.values, st.outflow.values)]
+        if ok_lab.ndim == 0:
+            sel = lambda a: a if bool(ok_lab) else a[:0]
+        else:
+            sel = lambda a: a[:, ok_lab]
+        all_ok = bool(np.all(ok_lab))
+        if sel(st.stock.values).size:
+            problems += [tagc + x for x in conservation(S, sel(st.stock.values), sel(st.inflow.values), sel(st.outflow.values))]
         # --- equality with the specification's tables
         if sf_ok:
             if cls == "flow":
@@ -228,6 +240,8 @@ def run_vector(vec):
                 problems += [tagc + x for x in cmp_table(st.get_stock_by_cohort(), S.table2(vec["res"]["sbc"]), "stock_by_cohort", tg, scale)]
                 problems += [tagc + x for x in cmp_table(st.get_outflow_by_cohort(), S.table2(vec["res"]["obc"]), "outflow_by_cohort", tg, scale)]
         # --- the library's own balance check accepts a computed stock and rejects a perturbed one
+        if not all_ok:
+            continue
         try:
             bal = st.get_stock_balance()
             if not np.all(np.abs(bal) <= 1e-6 * scale):
